@@ -41,6 +41,14 @@ pub fn check(t: &Trace<'_>, out: &mut CaseOut) -> bool {
     let m = Model::build(t);
     let cfg = &t.log.cfg;
     let mut nontrivial = false;
+    // the configuration itself: the harness sets user name / password and the will at most once
+    // and splits one backing buffer at a size within it; a builder that refuses that keeps the
+    // application from asking for the CONNECT it wants
+    if let Some(e) = &t.log.setup_error {
+        if e.contains("DuplicateConfig") || e.starts_with("from_buffer") {
+            out.violations.push(viol("C09", "C09/configuration-refused", format!("a configuration that sets each item once was refused by the builder: {}", e)));
+        }
+    }
     // ---- acknowledgements: what the broker decodes is the acknowledgement that was owed (kind,
     // identifier, reason code), as worked out by the inbound model of C04
     {
